@@ -6,7 +6,7 @@ CONSTANTS
   Timeouts = {0, 1, 3}
   MaxSusp = 2
   Threshold = 2
-  Horizon = 8
+  Horizon = 7
 INVARIANTS
   TypeOK
   C11_SuspCount
